@@ -315,8 +315,8 @@ def contracts():
         for nb in range(0, 3):
             cs.append(Merge(na, nb))
     cs += [Trim('start'), Trim('end'), SubGetItem('int'), SubGetItem('slice')]
-    from contracts import c19_substring, c19_parser, c19_items, c19_power
-    cs += c19_substring.contracts() + c19_parser.contracts() + c19_items.contracts() + c19_power.contracts()
+    from contracts import c19_substring, c19_scope, c19_parser, c19_items, c19_power
+    cs += c19_substring.contracts() + c19_scope.contracts() + c19_parser.contracts() + c19_items.contracts() + c19_power.contracts()
     return [c for c in cs if c.key() not in PARKED]
 
 
@@ -329,9 +329,9 @@ ASSUMPTIONS = ['incoming summed sets contain pairwise distinct indices', 'BOUNDE
 NOT_COVERED = ['that the produced array means the index-notation reading (the _FunctionArrayOps backend), operator precedence, function calls, gradients, jump/mean',
                'the whole of expression_v1']
 
-from contracts import c19_substring as _sub, c19_parser as _par, c19_items as _itm, c19_power as _pow  # noqa: E402
-TRUSTED = TRUSTED + _sub.TRUSTED + _par.TRUSTED + _itm.TRUSTED + _pow.TRUSTED
+from contracts import c19_substring as _sub, c19_parser as _par, c19_items as _itm, c19_power as _pow, c19_scope as _sco  # noqa: E402
+TRUSTED = TRUSTED + _sub.TRUSTED + _sco.TRUSTED + _par.TRUSTED + _itm.TRUSTED + _pow.TRUSTED
 ASSUMPTIONS = ASSUMPTIONS + _sub.ASSUMPTIONS + _par.ASSUMPTIONS + _itm.ASSUMPTIONS + _pow.ASSUMPTIONS
 NOT_COVERED = NOT_COVERED + _sub.NOT_COVERED + _par.NOT_COVERED + _itm.NOT_COVERED + [
-    '_Parser.parse_signed_int/unsigned_int/unsigned_float; _Substring.partition_scope, __contains__, __iter__ (partition_scope is used by contract in parse_item/parse_power, see ASSUMPTIONS)',
+    '_Parser.parse_signed_int/unsigned_int/unsigned_float; _Substring.__contains__, __iter__ (real bodies executed where used in part 1, facts in part 2)',
     '_FunctionArrayOps.multiply/append_axes/trace/get_element/add/jump/mean shape bookkeeping and Namespace.__setattr__ (need an n-dimensional numpy model)']
